@@ -148,6 +148,13 @@ func c07Scenarios(thorough bool) []*explore.Scenario {
 		scs = append(scs, &explore.Scenario{Name: fmt.Sprintf("SCANSPLIT-%s-%d", x.base, i), Base: x.base, Cfg: "BIGC",
 			Threads: []explore.ThreadProg{{op(explore.Scan, ""), op(explore.Count, "")}, x.w}, Bound: -1, QuietPop: true})
 	}
+	// F7: Backup runs alongside a writer and Compact (file-system calls on segment files are scheduling points: the window
+	// between Backup's snapshot of the segment list and its copy loop). The history must be linearizable AND the backup,
+	// opened, must hold the contents of one instant between Backup's call and return (C12's cut oracle).
+	for i, w := range []explore.ThreadProg{{op(explore.Put, "a")}, {op(explore.Delete, "a"), op(explore.Put, "e")}} {
+		scs = append(scs, &explore.Scenario{Name: fmt.Sprintf("BK-Compact-%d", i), Base: "S2", Cfg: "ROLL",
+			Threads: []explore.ThreadProg{{op(explore.Backup, "")}, w, {op(explore.Compact, "")}}, Bound: -1, FSYield: true, YieldDirOnly: true, Record: true})
+	}
 	// F5: sync-after-every-write mode (Put/Delete end with an fsync inside their critical section) next to Compact and readers
 	for i, w := range []explore.ThreadProg{{op(explore.Put, "e"), op(explore.Put, "a")}, {op(explore.Delete, "a"), op(explore.Put, "n")}, {op(explore.Put, "b"), op(explore.Delete, "e")}} {
 		for j, rd := range [][]explore.Op{{op(explore.Get, "e"), op(explore.Get, "a")}, {op(explore.Has, "b"), op(explore.Count, "")}} {
@@ -225,7 +232,11 @@ func boundName(b int) string {
 }
 
 func runC07(c *explore.Ctx) {
+	bkMemo := map[string]*explore.Recovered{}
 	runScenarioSet(c, c07Scenarios(c.Thorough()), func(base *explore.Base, sc *explore.Scenario) func(r *explore.ConcRun) (string, string) {
+		if strings.HasPrefix(sc.Name, "BK-") {
+			return c12Check(c, base, sc, bkMemo)
+		}
 		lin := linCheck(base)
 		return func(r *explore.ConcRun) (string, string) {
 			if cl, msg := lin(r); msg != "" {
